@@ -20,6 +20,9 @@ CASES = {
     'struct-same-member': [('change', 'm:_pid', {'p': 10.0}), ('change', 'm:_pid', {'p': 20.0, 'd': 1.0})],
     'limit-vs-target': [('change', 'm:_t_max', 5.0), ('change', 'm:_t', 8.0)],
     'limit-vs-target-2': [('change', 'm:_t_limits', [0.0, 3.0]), ('change', 'm:_u', 4.0)],
+    # the poll thread reads the limit from the hardware (lower than before) while a connection changes the target
+    'limit-poll-vs-target': [('poll', 't_max', 5.0), ('change', 'm:_t', 8.0)],
+    'limits-poll-vs-target': [('poll', 'u_limits', (0.0, 3.0)), ('change', 'm:_u', 4.0)],
 }
 LOG = []
 _cls = {}
@@ -56,7 +59,24 @@ def module_class():
 
         def write_u(self, value):
             LOG.append(('write_u', value, tuple(self.u_limits)))
+            s = schedx.active()
+            if s is not None:
+                s.point('yield', 'hardware')
             return value
+
+        hw = {}
+
+        def read_t_max(self):
+            s = schedx.active()
+            if s is not None:
+                s.point('yield', 'hardware')
+            return self.hw.get('t_max', self.t_max)
+
+        def read_u_limits(self):
+            s = schedx.active()
+            if s is not None:
+                s.point('yield', 'hardware')
+            return self.hw.get('u_limits', self.u_limits)
     _cls['M'] = M
     return M
 
@@ -69,7 +89,7 @@ def execute(case, prefix):
     holder = {'replies': {}}
     del LOG[:]
     reqs = CASES[case['name']]
-    reqs = [('change', 'm:_u_limits' if r[1] == 'm:_t_limits' else r[1], r[2]) for r in reqs]
+    reqs = [(r[0], 'm:_u_limits' if r[1] == 'm:_t_limits' else r[1], r[2]) for r in reqs]
 
     def body():
         node = nodes.Node({'m': {'cls': module_class(), 't_max': {'value': 50.0}, 'u_limits': {'value': (0.0, 50.0)}}})
@@ -79,9 +99,16 @@ def execute(case, prefix):
             node.dispatcher.add_connection(c)
         sched.begin()
 
+        mod = node.secnode.modules['m']
+        mod.hw = {r[1]: r[2] for r in reqs if r[0] == 'poll'}
+
         def client(i):
             def run():
-                holder['replies'][i] = node.request_msg(conns[i], reqs[i])
+                if reqs[i][0] == 'poll':        # what the poll thread does with a polled parameter
+                    getattr(mod, 'read_' + reqs[i][1])()
+                    holder['replies'][i] = ('polled',)
+                else:
+                    holder['replies'][i] = node.request_msg(conns[i], reqs[i])
             return run
         ts = [schedx.Thread(target=client(i), name=f'conn{i}') for i in range(len(reqs))]
         for t in ts:
@@ -129,6 +156,7 @@ def judge(case, reqs, x, holder):
                     viol.append(('conc:accepted-member-change-lost', f'both changes were accepted {accepted} but the cache holds {final["pid"]}'))
     ncalls = len([e for e in LOG if e[0].startswith('write_') and e[0] != 'write_u']) + len([e for e in LOG if e[0] == 'write_u'])
     nacc = len([r for r in replies.values() if r[0] == 'changed'])
+    # (a poll is not a request: replies of kind 'polled' are not counted)
     nlimit = len([r for r in reqs if r[1].endswith(('_max', '_limits'))])
     if ncalls != nacc - len([i for i, r in replies.items() if r[0] == 'changed' and reqs[i][1].endswith(('_max', '_limits'))]):
         viol.append(('conc:driver-call-count', f'{nacc} accepted requests ({nlimit} of them limits without write method) but driver calls {LOG}'))
